@@ -288,6 +288,7 @@ class SimNet:
         self.world = world
         self.transports: List[FakeTransport] = []
         self.trace: List[Sent] = []
+        self.arrivals: List[Tuple[float, str, bytes, tuple]] = []  # (ms, host, data, source) as delivered to sockets
         self.delivered = 0
         # link policy: (sent, src_transport, dst_transport) -> list of one-way delays in us ([] = drop)
         self.policy: Optional[Callable[[Sent, FakeTransport, FakeTransport], List[int]]] = None
@@ -332,6 +333,7 @@ class SimNet:
     def _deliver(self, other: FakeTransport, data: bytes, src: tuple) -> None:
         if not other.closed:
             self.delivered += 1
+            self.arrivals.append((other.loop.now_us / 1000, other.sock.host.name, data, src))
             other.protocol.datagram_received(data, src)
 
     def inject(self, host: Host, data: bytes, src: tuple, role: str = "any", family: Optional[int] = None) -> None:
@@ -341,6 +343,7 @@ class SimNet:
         for t in host.transports():
             if (role == "any" or t.sock.role == role) and t.sock.family == family and not t.closed:
                 self.delivered += 1
+                self.arrivals.append((t.loop.now_us / 1000, host.name, data, src))
                 t.protocol.datagram_received(data, src)
                 return
         # closed or missing socket: nothing is listening
